@@ -69,7 +69,37 @@ func HarnessC13Position() {
 	tmpl := vfParamStr("tmpl")
 	mode := vfParamInt("mode")
 	src, line, col := vfC13Build(tmpl)
-	program, err := Compile(src, Env(&vfEnv{}))
+	if mode == 2 || mode == 4 {
+		// an overloaded operator whose function fails at run time: the error must be reported at that operator
+		calls := 0
+		e := &vfOvEnv{V: vfVec{1}, W: vfVec{2}, A: 5, Xs: []vfVec{{3}}}
+		e.AddVec = func(a, b vfVec) vfVec {
+			calls++
+			if mode == 2 || calls == 2 {
+				panic("overload failed")
+			}
+			return vfVec{a.X + b.X}
+		}
+		program, err := Compile(src, Env(&vfOvEnv{}), Operator("+", "AddVec"))
+		vfReach("c13.compiled")
+		if err != nil {
+			vfFail("c13.run-template-does-not-compile")
+		}
+		_, rerr := Run(program, e)
+		vfReach("c13.ran")
+		vfAssert(rerr != nil, "c13.fault-is-reported")
+		if rerr != nil {
+			vfC13CheckError(rerr, src, line, col)
+		}
+		return
+	}
+	envSample := interface{}(&vfEnv{})
+	if mode == 3 {
+		// names that begin with "in" exist in this environment: the single fault is the marked one
+		envSample = map[string]interface{}{"inX": true, "index": []int{1}, "A": 1}
+		mode = 0
+	}
+	program, err := Compile(src, Env(envSample))
 	vfReach("c13.compiled")
 	if mode == 0 {
 		vfAssert(err != nil, "c13.fault-is-reported")
